@@ -282,8 +282,8 @@ pub fn run(cfg: &Cfg) -> Outcome {
     out.desc = cfg.to_json();
     let wall0 = Instant::now();
     rt.block_on(run_inner(cfg, &mut out));
-    if wall0.elapsed() > Duration::from_secs(20) && out.viols.is_empty() {
-        out.inconclusive = Some("scenario wall-clock watchdog (20 s)".into());
+    if wall0.elapsed() > Duration::from_secs(120) && out.viols.is_empty() {
+        out.inconclusive = Some("scenario wall-clock watchdog (120 s)".into());
     }
     out
 }
